@@ -234,6 +234,19 @@ def plan_wire(pid, rng, quick):
                 bs.insert(0, dict(otap.rand_batch(rng, rich=1), signal=rng.choice(["traces", "logs", "metrics"])))
             plan.append({"id": "wire-refused/%s/%d" % (signal, rep), "signal": signal, "opts": {}, "batches": bs,
                          "props": [], "mode": 2, "nodecode": True})
+    # a fault INSIDE Produce (all records built, the allocator fails while a record is written to its IPC stream) in the
+    # middle of a stream: the call returns an error, nothing is emitted, and the batch ids of the emitted batches still
+    # count up by one.  (The wire is not walked: on the unchanged tree the half-written IPC message makes the sub-stream
+    # undecodable from then on - a fault inside the IPC writer is outside the domain of the IPC clauses, as in C07.)
+    for signal in ("traces", "logs", "metrics"):
+        for rep in range(2 if quick else 8):
+            bs = [otap.rand_batch(rng, rich=2) for _ in range(rng.choice([2, 3]))]
+            bs.append(dict(otap.rand_batch(rng, rich=2), allocfail=True))
+            bs += [otap.rand_batch(rng, rich=2), otap.rand_batch(rng, rich=1)]
+            if rep % 2:
+                bs.insert(len(bs) - 1, dict(otap.rand_batch(rng, rich=2), allocfail=True))
+            plan.append({"id": "wire-allocfail/%s/%d" % (signal, rep), "signal": signal, "opts": otap.opts_random(rng) if rep % 2 else {},
+                         "batches": bs, "props": [], "mode": 2, "nodecode": True, "nowire": True})
     # sibling records of one shape: every attribute map of a batch has the same columns, every metric kind and every
     # exemplar / event / link attribute record occurs, so all records of one family share an Arrow schema signature
     for signal in ("traces", "logs", "metrics"):
@@ -256,8 +269,20 @@ def plan_wire(pid, rng, quick):
             plan.append({"id": "wire-deep/%s/%s/%s" % (signal, col, d or "default"), "signal": signal, "opts": o,
                          "batches": [ramp(signal, 10000, 10000, k * 10000, col) for k in range(15)],
                          "props": [], "mode": 2, "nodecode": True})
+    # a narrow-declared column (8-bit index first) that jumps over EVERY index width in one record: a long high-reuse
+    # history (<= 200 distinct values, > 220,000 values in all), then one batch that takes the cumulative cardinality beyond
+    # 65,535 while holding fewer distinct values itself - updateIndexType ends in its reset branch from a non-top level
+    # (Dictionary.tla: Update with lvl = 1, Climb > L, ratio below the threshold)
+    jumps = [("logs", "sevtext"), ("traces", "name"), ("metrics", "name"), ("metrics", "unit")]
+    for signal, col in (jumps[:2] if quick else jumps):
+        for d in ([""] if quick else ["", "16", "32"]):
+            plan.append({"id": "wire-jump/%s/%s/%s" % (signal, col, d or "default"), "signal": signal, "opts": {"dict": d} if d else {},
+                         "batches": [ramp(signal, 50000, 200, 0, col) for _ in range(5)] +
+                                    [ramp(signal, 65400, 65400, 1000, col), ramp(signal, 50, 5, 0, col, nodump=False),
+                                     ramp(signal, 300, 300, 200000, col, nodump=False)],
+                         "props": [], "mode": 2, "nodecode": True})
     dicts = ["8", "8", "16", "", "none", "32", "64"]
-    for i in range(30 if quick else 1200):
+    for i in range(36 if quick else 1200):
         signal = rng.choice(["traces", "logs", "metrics"])
         d = rng.choice(dicts)
         cap = {"8": 255, "16": 65535, "": 65535, "none": 300, "32": 70000, "64": 70000}[d]
@@ -267,8 +292,18 @@ def plan_wire(pid, rng, quick):
         t = rng.choice([None, 0.0, 0.3, 1.0, -1.0])
         if t is not None:
             o["thr"] = t
+        regime = rng.choice(["overflow", "reset", "cross"])
+        if i < 12:
+            # always present, whatever the seed draws: the reset regime (high reuse, then one batch that alone exceeds the
+            # limit) under every threshold that allows a reset, for every signal - the history behind finding F07 and the
+            # seeded changes C13-m1 / C13-m4 / C13-m5 / C13-m7
+            signal, regime, d, cap = ["traces", "logs", "metrics"][i % 3], "reset", "8", 255
+            o = {"dict": d, "zstd": i % 2 == 0}
+            t = [None, 0.3, 1.0, -1.0][i % 4]
+            if t is not None:
+                o["thr"] = t
         plan.append({"id": "wire-dict/%s/%s/%d" % (signal, d, i), "signal": signal, "opts": o,
-                     "batches": ramp_history(rng, signal, rng.choice(["overflow", "reset", "cross"]), cap, rng.choice([4, 8, 22])),
+                     "batches": ramp_history(rng, signal, regime, cap, rng.choice([4, 8, 22]) if i >= 12 else 8),
                      "props": [], "mode": 2, "nodecode": True})
     return plan
 
@@ -278,7 +313,11 @@ def plan_c04(pid, rng, quick):
     product = [(d, t, z, os_, a16, a32) for d in otap.DICTS for t in (None, 0.0, 1.0, -1.0) for z in (True, False)
                for os_ in otap.ORDER_SPAN for a16 in otap.ATTRS16 for a32 in otap.ATTRS32]
     rng.shuffle(product)
-    pick = product[:170] if quick else product
+    # the corners of the ordering lattice (everything unordered, everything on its last variant, one unordered) are always
+    # part of the sample: code that keys on a *combination* of options only shows there
+    corners = [c for c in product if (c[3], c[4], c[5]) in (("", "", ""), (otap.ORDER_SPAN[-1], otap.ATTRS16[-1], otap.ATTRS32[-1]),
+                                                           ("", otap.ATTRS16[-1], otap.ATTRS32[-1]), (otap.ORDER_SPAN[-1], "", ""))]
+    pick = (corners[:24] + product[:146]) if quick else product
     for i, (d, t, z, os_, a16, a32) in enumerate(pick):
         o = {"dict": d, "zstd": z, "hasOrder": True, "orderSpan": os_, "attrs16": a16, "attrs32": a32}
         if t is not None:
@@ -291,7 +330,12 @@ def plan_c04(pid, rng, quick):
         if i % 4 == 1:
             o["stats"] = ["ratio", "producer", "ratio,producer"][(i // 4) % 3]
         signal = ["traces", "logs", "metrics"][i % 3] if not quick else rng.choice(["traces", "traces", "logs", "metrics"])
+        if quick and i < 24:
+            signal = ["traces", "traces", "metrics", "logs"][i % 4]
         st = otap.rand_stream(rng, "opt/%s/%d" % (signal, i), signal, ["C04"], opts=o, nb=rng.choice([2, 3, 4]))
+        if quick and i < 24:
+            for b in st["batches"]:
+                b.update(rich=2, maxItems=8)
         plan.append(st)
     # index-width state machine under the dictionary sub-lattice: ramps crossing 255 / 65535 / the limit
     dl = [("8", 255), ("16", 65535), ("", 65535), ("32", 65535), ("64", 65535), ("none", 300)]
@@ -540,6 +584,11 @@ def run(pid, tier_, replay=None):
         # Produce / Consume step (stream maps read through the verif-tagged projection)
         strm = otap.stream_mc(quick)
         strm["trace"] = otap.stream_conformance(outs, timeout=1500 if quick else 7000)
+    wirev = None
+    if pid in ("C01", "C02", "C03", "C04", "C12", "C08"):
+        # the relational layer of the wire protocol (ids, parent ids, delta groups): OtapWire.tla on every small emitted batch,
+        # read by an independent Arrow reader - binds the producer alone to the protocol (drift only)
+        wirev = otap.run_otapwire(outs, timeout=1500 if quick else 7000)
     stats = otap.summarize(outs)
     found = []
     for tr, prop, clause, seq in viol:
@@ -621,6 +670,12 @@ def run(pid, tier_, replay=None):
         cov["traces_validated_against_impl"] = cov["traces_validated_against_impl"] + alloc["runs"] - len(alloc["drift"])
         if alloc["drift"]:
             print("DRIFT (not a verdict): the real LimitedAllocator differs from Allocator.tla on %d sequences, e.g. %s" % (len(alloc["drift"]), json.dumps(alloc["drift"][0])))
+    if wirev is not None:
+        cov["wire"] = dict(spec="OtapWire.tla", batches_decoded_by_the_specification=wirev["batches"], rows=wirev["rows"],
+                           conformance_drift=len(wirev["drift"]), drift_samples=wirev["drift"][:3])
+        for d_ in wirev["drift"][:4]:
+            sid_ = plan[d_[0] - 1]["id"] if 0 < d_[0] <= len(plan) else "?"
+            print("DRIFT (not a verdict): OtapWire.tla: %s of table %s in batch %s of stream %s" % (d_[2], d_[3], d_[1], sid_))
     if strm:
         if strm["problem"]:
             model_issues.append("Stream.tla: " + strm["problem"])
